@@ -4,13 +4,18 @@ answer `ok` or `illegal <reason>`.
 
 ```
 wp reset                        forget everything
-wp call <w> <0|1>               harness: writer <w> (fresh decimal id) entered Put/Delete/Write, merge flag
+wp call <w> <0|1> [<sync> <nrec> <put|write>]
+                                harness: writer <w> (fresh decimal id) entered Put/Delete/Write, merge flag; and
+                                (wp34) its effective Sync flag (`wo.Sync && !o.NoSync`), `batch.Len()`, the kind of call
 wp lock <w>                     "w.lock"     <w> sent on writeLockC (logged after the send)
 wp leader <w>                   "w.leader"   <w> is about to run writeLocked (after lock, or after handoff)
 wp flushed <0|1>                "w.flushed"  1 = db.flush failed
 wp accept <w2>                  "w.accept"   leader merged <w2> (logged before the reply on writeMergedC)
 wp overflow <w2>                "w.overflow" <w2> did not fit
-wp group <seq> <n> <nbatches>   "w.group"    seq = db.seq+1, n records in nbatches batches
+wp group <seq> <n> <nbatches> [<0|1>]
+                                "w.group"    seq = db.seq+1, n records in nbatches batches, the `sync` local:
+                                when every call carried its data, n / nbatches / sync must be the model's
+                                `gn` / `batches.length` / `gsync` after the replay of the merge loop
 wp applied                      "w.applied"  journal written, memdb updated
 wp publish <seq>                "w.publish"  db.seq after addSeq(n): must be group seq + n - 1
 wp ack                          "w.ack"      one per merged writer (logged after the send on writeAckC)
@@ -28,11 +33,16 @@ fails are dropped; the event is illegal when the phase machine rejects it or no 
 steps of the model: a trace the validator accepts is a run of the transition system of `Model/WriteProto`.
 
 Where the model is ahead of / behind the log:
-* the merge loop is replayed at `group` (`flushOk lim`, `recvAccept`/`reply` per `accept`, `recvOverflow`
-  or `mergeDone`), because only then the number of merged writers — hence a suitable `lim` — is known
-  (mirror writers have size 2, `lim = 2·accepted + 1`);
-* the outcome of the optional `rotateMem` after `publish` is not logged: the candidates fork into
-  "result nil" and "result err"; the first `ret` of a member of the group selects;
+* the merge loop is replayed at `group` (`flushOk mdbFree`, `recvAccept`/`reply` per `accept`, `recvOverflow`
+  or `mergeDone`), because only then the number of merged writers — hence a suitable `mdbFree` — is known
+  (mirror writers have size 2; `mdbFree = 2 + 2·accepted + 1` makes the merge limit `2·accepted + 1`);
+* the outcome of the optional `rotateMem` after `publish` is not logged, and whether it runs
+  (`batch.internalLen >= mdbFree`) is decided by `mdbFree`: at `group` the candidates fork into `mdbFree` as
+  above (no rotation, result nil) and — only when nobody overflowed and either nobody was merged or a `Put`
+  leader merged `Put`s only, the one way `batch` can grow to `mdbFree` — `mdbFree = 2 + 2·accepted`
+  (rotation, which fails: result err); the first `ret` of a member of the group selects;
+* `db.batchPool.Get()` always takes the oldest pooled batch (`some 0`): the contents of a pooled batch do not
+  matter in the configuration the validator runs (`{}`: it is reset);
 * `w.ack` is logged after the rendezvous, so the merged writer's `ret` may come first: the model `ack` step
   of a writer is fired by its `ret` (allowed once the journal outcome is known), and `handoff`/`release`
   fire the remaining ones; `ack` lines are counted and must add up to the number of accepted writers;
@@ -67,11 +77,15 @@ structure WpState where
   /-- `ack` lines seen for the current leader -/
   issued : Nat := 0
   lastPub : Nat := 0
+  /-- every `call` so far carried its data (sync, record count, kind) -/
+  exact : Bool := true
 deriving Repr
 
 inductive Ev
-  | reset | call (w : Nat) (merge : Bool) | lock (w : Nat) | leader (w : Nat) | flushed (err : Bool)
-  | accept (w : Nat) | overflow (w : Nat) | group (seq n nb : Nat) | applied | publish (seq : Nat)
+  | reset | call (w : Nat) (merge : Bool) (d : Option (Bool × Nat × Bool)) | lock (w : Nat) | leader (w : Nat)
+  | flushed (err : Bool)
+  | accept (w : Nat) | overflow (w : Nat) | group (seq n nb : Nat) (sync : Option Bool) | applied
+  | publish (seq : Nat)
   | ack | handoff | release | ret (w : Nat) (r : Res) | fin
 deriving DecidableEq, Repr
 
@@ -88,9 +102,16 @@ def idxOf (v : WpState) (w : Nat) : Option Nat :=
   | some k => some (k + 2)
   | none => none
 
+/-- the mirror of a writer call: size 2 whatever the real size (the merge decisions are taken from the log),
+`nrec` records all named after the call -/
+def mirror (w : Nat) (merge : Bool) (d : Option (Bool × Nat × Bool)) : Thread :=
+  let (sync, nrec, put) := d.getD (false, 1, true)
+  { kind := .writer, merge := merge, size := 2, put := put, sync := sync,
+    recs := List.replicate nrec w, cb := List.replicate nrec w }
+
 /-- append an idle writer thread (the slot the `call` step then uses) -/
-def addIdle (m : St) (merge : Bool) : St :=
-  { m with ws := m.ws ++ [{ kind := .writer, merge := merge, size := 2, nrec := 1 }] }
+def addIdle (m : St) (w : Nat) (merge : Bool) (d : Option (Bool × Nat × Bool)) : St :=
+  { m with ws := m.ws ++ [mirror w merge d] }
 
 /-- harness result against model result: `err` covers a storage error and the persistent error -/
 def resMatch (h r : Res) : Bool :=
@@ -110,12 +131,31 @@ def waIdx : List Thread → Nat → List Nat
 
 def ackAll (m : St) (j : Nat) : List Label := (waIdx m.ws 0).map (fun i => Label.ack i j)
 
-/-- replay of the merge loop -/
-def mergeLabels (j : Nat) (accs : List Nat) (ovf : Option Nat) : List Label :=
-  [Label.flushOk j (2 * accs.length + 1)] ++ accs.flatMap (fun i => [Label.recvAccept i j, Label.reply i j]) ++
+/-- replay of the merge loop with `mdbFree = free` -/
+def mergeLabels (j : Nat) (free : Nat) (accs : List Nat) (ovf : Option Nat) : List Label :=
+  [Label.flushOk j free] ++ accs.flatMap (fun i => [Label.recvAccept i j (some 0), Label.reply i j]) ++
   (match ovf with
    | some i => [Label.recvOverflow i j]
    | none => [Label.mergeDone j])
+
+def isPut (m : St) (i : Nat) : Bool := match m.ws[i]? with | some w => w.put | none => false
+
+/-- the two values of `mdbFree` that explain a log: room for one more unit than was merged (no rotation),
+or — if that is possible at all — exactly the room that was used (`batch.internalLen >= mdbFree`: rotation) -/
+def groupAlts (j : Nat) (accs : List Nat) (ovf : Option Nat) (m : St) : List (List Label) :=
+  [mergeLabels j (2 * accs.length + 3) accs ovf] ++
+  (if ovf.isNone && (accs.isEmpty || (isPut m j && accs.all (isPut m))) then
+     [mergeLabels j (2 * accs.length + 2) accs ovf]
+   else [])
+
+/-- what the `w.group` hook reported against the model's leader record -/
+def recOk (j n : Nat) (m : St) : Bool := match m.ws[j]? with | some l => l.gn == n | none => false
+def nbOk (j nb : Nat) (m : St) : Bool := match m.ws[j]? with | some l => l.batches.length == nb | none => false
+def syncOk (j : Nat) (sy : Option Bool) (m : St) : Bool :=
+  match sy, m.ws[j]? with
+  | none, _ => true
+  | some b, some l => l.gsync == b
+  | _, none => false
 
 /-- run alternatives on every candidate, keep the successful ones that pass `post` -/
 def advance (ms : List St) (alts : St → List (List Label)) (post : St → Bool) : List St :=
@@ -159,10 +199,11 @@ def finish (v : WpState) (ms : List St) (why : String) : Except String WpState :
 /-- the validator -/
 def legalStep (v : WpState) : Ev → Except String WpState
   | .reset => .ok initWp
-  | .call w mg =>
+  | .call w mg d =>
     if v.ids.contains w then .error "call: id already used" else
     let i := v.ids.length + 2
-    finish { v with ids := v.ids ++ [w] } (advance (v.ms.map (addIdle · mg)) (one [Label.call i]) (fun _ => true))
+    finish { v with ids := v.ids ++ [w], exact := v.exact && d.isSome }
+      (advance (v.ms.map (addIdle · w mg d)) (one [Label.call i]) (fun _ => true))
       "call: internal"
   | .lock w =>
     match idxOf v w with
@@ -170,7 +211,7 @@ def legalStep (v : WpState) : Ev → Except String WpState
     | some i =>
       if v.phase ≠ .free then .error "lock: the write lock is held by a leader" else
       finish { v with phase := .needLeader, lead := i, accs := [], ovf := none, issued := 0 }
-        (advance v.ms (one [Label.lock i]) (fun _ => true)) "lock: writer is not waiting for the lock"
+        (advance v.ms (one [Label.lock i (some 0)]) (fun _ => true)) "lock: writer is not waiting for the lock"
   | .leader w =>
     match idxOf v w with
     | none => .error "leader: unknown writer"
@@ -202,13 +243,23 @@ def legalStep (v : WpState) : Ev → Except String WpState
       if !leaderMerges v then .error "overflow: leader has merge disabled" else
       if !mergeable v i then .error "overflow: writer is not a merge candidate" else
       .ok { v with ovf := some i }
-  | .group seq n nb =>
+  | .group seq n nb sy =>
     if v.phase ≠ .merging then .error "group: leader is not in its merge loop" else
     if seq ≤ v.lastPub then .error "group: sequence number not above the last published one" else
     if nb = 0 ∨ v.accs.length + 1 < nb then .error "group: batch count" else
     if n < v.accs.length + 1 ∨ n < nb then .error "group: record count" else
+    let alts := groupAlts v.lead v.accs v.ovf
+    let all := advance v.ms alts (fun _ => true)
+    let ex := v.exact
+    let why :=
+      if all.isEmpty then "group: internal"
+      else if ex && (all.filter (recOk v.lead n)).isEmpty then
+        "group: record count is not the sum of the leader's and the merged writers' records"
+      else if ex && (all.filter (nbOk v.lead nb)).isEmpty then
+        "group: batch count is not 1 + merged batches + the pooled batch"
+      else "group: sync flag is not the leader's or a merged writer's Sync"
     finish { v with phase := .grouped seq n }
-      (advance v.ms (one (mergeLabels v.lead v.accs v.ovf)) (fun _ => true)) "group: internal"
+      (advance v.ms alts (fun m => (!ex || (recOk v.lead n m && nbOk v.lead nb m)) && syncOk v.lead sy m)) why
   | .applied =>
     match v.phase with
     | .grouped seq n =>
@@ -223,7 +274,7 @@ def legalStep (v : WpState) : Ev → Except String WpState
       finish { v with phase := .unlocking, lastPub := q }
         (advance v.ms (fun _ => [[Label.publish v.lead false],
                                  [Label.publish v.lead true, Label.rotateFail v.lead]]) (fun _ => true))
-        "publish: internal"
+        "publish: internal"  -- `publish j rot` is enabled for the one `rot` the candidate's `mdbFree` implies
     | _ => .error "publish: nothing applied"
   | .ack =>
     if v.accs.length ≤ v.issued then .error "ack: more acks than merged writers" else
@@ -247,7 +298,7 @@ def legalStep (v : WpState) : Ev → Except String WpState
       | some pre =>
         -- the journal-failure prefix changes no program counter but the leader's, so `ackAll m` is unaffected
         finish { v with phase := .needLeader, lead := i, accs := [], ovf := none, issued := 0 }
-          (advance v.ms (fun m => [pre ++ ackAll m v.lead ++ [Label.handoff i v.lead]]) (fun _ => true))
+          (advance v.ms (fun m => [pre ++ ackAll m v.lead ++ [Label.handoff i v.lead (some 0)]]) (fun _ => true))
           "handoff: internal"
   | .release =>
     if v.issued ≠ v.accs.length then .error "release: not every merged writer was acked" else
@@ -289,15 +340,22 @@ def parseRes : String → Option Res
 def parseBool : String → Option Bool
   | "0" => some false | "1" => some true | _ => none
 
+/-- `put`: `DB.Put`/`DB.Delete`; `write`: `DB.Write(batch)` -/
+def parseKind : String → Option Bool
+  | "put" => some true | "write" => some false | _ => none
+
 def parseEv : List String → Option Ev
   | ["reset"] => some .reset
-  | ["call", w, m] => do pure (.call (← w.toNat?) (← parseBool m))
+  | ["call", w, m] => do pure (.call (← w.toNat?) (← parseBool m) none)
+  | ["call", w, m, sy, n, k] => do
+    pure (.call (← w.toNat?) (← parseBool m) (some (← parseBool sy, ← n.toNat?, ← parseKind k)))
   | ["lock", w] => do pure (.lock (← w.toNat?))
   | ["leader", w] => do pure (.leader (← w.toNat?))
   | ["flushed", e] => do pure (.flushed (← parseBool e))
   | ["accept", w] => do pure (.accept (← w.toNat?))
   | ["overflow", w] => do pure (.overflow (← w.toNat?))
-  | ["group", s, n, nb] => do pure (.group (← s.toNat?) (← n.toNat?) (← nb.toNat?))
+  | ["group", s, n, nb] => do pure (.group (← s.toNat?) (← n.toNat?) (← nb.toNat?) none)
+  | ["group", s, n, nb, sy] => do pure (.group (← s.toNat?) (← n.toNat?) (← nb.toNat?) (some (← parseBool sy)))
   | ["applied"] => some .applied
   | ["publish", s] => do pure (.publish (← s.toNat?))
   | ["ack"] => some .ack
